@@ -45,9 +45,29 @@ class FW:
     def __init__(self, segs):
         self.segs = [s for s in segs if s[-1] > 0 or s[0] == 'lit']
 
+    path = None          # the Path (or ConcreteP) of the current run
+    tz = 0               # trailing zero bytes of the (opaque) file content, once the code asked
+
     @staticmethod
     def file(n):
         return FW([('file', 0, n)])
+
+    def rstrip(self, chars=None):
+        """the only content-dependent question modelled: how many trailing zero bytes does the
+        opaque file have?  A symbolic count, restricted (stated bound) to the classes that
+        matter for paging: none, one, up to / across the last page boundary, a whole page, all."""
+        if chars != b'\x00' or self.segs != [('file', 0, len(self))]:
+            raise core.EngineLimit('bytes.rstrip on firmware other than rstrip(b"\\x00") of the whole file')
+        L = len(self)
+        p = FW.path
+        t = p.int('trailing_zero_bytes', lo=0, hi=L)
+        cands = sorted(c for c in {0, 1, L % PAGE, L % PAGE + 1, PAGE, PAGE + 1, L} if 0 <= c <= L)
+        p.assume(Or(*[t == c for c in cands]))
+        for c in cands:
+            if t == c:
+                FW.tz = c
+                return FW([('file', 0, L - c)])
+        raise core.EngineLimit('unreachable')
 
     def __len__(self):
         return sum(s[-1] if s[0] != 'lit' else len(s[1]) for s in self.segs)
@@ -349,13 +369,11 @@ def serial_for(ch):
     return ('3C%sJ' % ch).encode('utf-8').decode('utf-16-le')
 
 
-def expected_flash(L):
+def expected_flash(L, tz=0):
+    """zero-padded image; the last tz bytes of the file are known to be zero"""
     pages = (L + PAGE - 1) // PAGE
-    out = {}
-    for pg in range(pages):
-        a, b = pg * PAGE, min(L, (pg + 1) * PAGE)
-        out[pg] = FW([('file', a, b - a), ('zeros', PAGE - (b - a))]).canon()
-    return out
+    image = FW([('file', 0, L - tz), ('zeros', tz + pages * PAGE - L)])
+    return {pg: image[pg * PAGE:(pg + 1) * PAGE].canon() for pg in range(pages)}
 
 
 def run_once(p, L, variant, K, inject_mode, prof, sched='one'):
@@ -369,6 +387,7 @@ def run_once(p, L, variant, K, inject_mode, prof, sched='one'):
         vi = variant
     ch, pages = VARIANTS[vi]
     prints, sleeps, holder, fwh = [], [], [None], {}
+    FW.path, FW.tz = p, 0
     if L == 'oversize':
         n = p.int('L', lo=0, hi=1 << 30)
         p.assume(n > pages * PAGE)
@@ -483,6 +502,8 @@ def dfu_task(prop, L, variant, K, inject_mode, sched='one'):
             if exit_ok:
                 probs.append('oversize firmware was not refused')
         elif prop == 'C19':
+            if dev.pending is not None and (done or exit_ok):
+                probs.append('the run announced success while the result of the last %s was still outstanding (the device was busy and would have reported a failure)' % dev.pending['kind'])
             if dev.error_reported:
                 if done or exit_ok:
                     probs.append('device reported an error status for %s but the run announced success / exited 0' % dev.error_reported)
@@ -493,7 +514,7 @@ def dfu_task(prop, L, variant, K, inject_mode, sched='one'):
             if exit_ok and done:
                 n_done += 1
                 probs += dev.monitors
-                want = expected_flash(length)
+                want = expected_flash(length, FW.tz)
                 if dev.flash != want:
                     bad = sorted(set(dev.flash) ^ set(want)) or [k for k in want if dev.flash.get(k) != want[k]]
                     probs.append('flash differs from the zero-padded image at pages %r (e.g. %r vs %r)' % (
